@@ -21,7 +21,7 @@
 (***************************************************************************)
 EXTENDS Naturals, Sequences, FiniteSets, TLC, Json
 
-CONSTANTS Budget, Sim, Start,   \* Start: the start symbol ("FILE", or "EXPRFILE" for the operator-only grammar)
+CONSTANTS Budget, Sim, Start,   \* Start: the start symbol ("FILE", "EXPRFILE" for the operator-only grammar, "POSTFILE" for postfix chains)
           Masked
 
 VARIABLES todo, out, budget
@@ -53,6 +53,9 @@ Prods(h) ==
   CASE h.s = "FILE" -> { P(0, "file1", <<NT("ITEM")>>), P(1, "file2", <<NT("ITEM"), NT("FILE")>>) }
     [] h.s = "EXPRFILE" -> { P(0, "exprfile", <<OPEN("FUNCTION"), T("fn"), T("f"), T("("), T(")"), OPEN("BLOCK"), T("{"),
                                                   OPEN("STMT_EXPR"), E(1), CLOSE, T("}"), CLOSE, CLOSE>>) }
+    \* postfix chains only: every chain of calls, field accesses and tuple indices up to the budget
+    [] h.s = "POSTFILE" -> { P(0, "postfile", <<OPEN("FUNCTION"), T("fn"), T("f"), T("("), T(")"), OPEN("BLOCK"), T("{"),
+                                                  OPEN("STMT_EXPR"), NT("POSTFIX"), CLOSE, T("}"), CLOSE, CLOSE>>) }
     [] h.s = "ITEM" ->
          { P(0, "fn", <<OPEN("FUNCTION"), NT("PUB"), T("fn"), T("f"), T("("), NT("PARAMS"), T(")"), NT("RET")>> \o Block \o <<CLOSE>>),
            P(1, "fn_external", <<OPEN("FUNCTION"), OPEN("EXTERNAL_ATTR"), T("@"), T("external"), T("("), T("erlang"), T(","), T("\"m\""), T(","), T("\"f\""), T(")"), CLOSE,
@@ -113,6 +116,9 @@ Prods(h) ==
          { P(0, "last", <<OPEN("STMT_EXPR"), E(1), CLOSE>>),
            P(1, "last_todo", <<OPEN("STMT_EXPR"), OPEN("MISSING"), T("todo"), CLOSE, CLOSE>>),
            P(1, "last_panic_as", <<OPEN("STMT_EXPR"), OPEN("MISSING"), T("panic"), T("as"), T("\"s\""), CLOSE, CLOSE>>),
+           \* the message of `as` may be a postfix chain - under Gleam's reading (an expression unit: atom + postfix operators)
+           \* and under the reading "a full expression" alike, the chain belongs to the message
+           P(1, "last_todo_as_post", <<OPEN("STMT_EXPR"), OPEN("MISSING"), T("todo"), T("as"), NT("POSTFIX"), CLOSE, CLOSE>>),
            P(1, "seq", <<NT("STMT"), NT("STMTS")>>) }
     [] h.s = "STMT" ->
          { P(0, "let", <<OPEN("STMT_LET"), T("let"), NT("PAT"), NT("ANNOT"), T("="), E(1), CLOSE>>),
